@@ -16,6 +16,7 @@ func init() {
 			"(C11-g) the components of a PortSet are read only by its own methods (one reviewed reader outside), so emptiness / containment / fullness are always asked of numbered and named ports together; " +
 			"(C11-f) Equal compares every map-valued field in both directions. " +
 			"(C11-h) Subtract drops a protocol exactly under ContainedIn of its port set in the operand's (not `subtract, then IsEmpty`, which loses the full-range cover of a named port); (C11-i) PortSet.IsEmpty reads Ports and NamedPorts only, never the excluded-names bookkeeping; (C11-range) intervals with runtime bounds flow only into AddInterval / AddHole. " +
+			"(C11-j) a mutating binary operation of PortSet has no exit on which it consulted fewer components of its operand than on another path (no fast path that skips the named ports: union stays commutative); (C11-k) the comparing operations decide about numbered ports through the library's IsSubset / Equal / IsEmpty only, never through a measure of the representation; (C11-alloc) every literal of a set type allocates the maps that methods write through or compare with reflect.DeepEqual (nil and empty differ). " +
 			"NOT decided: that results denote the right point sets - interval arithmetic belongs to np-guard/models and is not analysed."
 		rules.SetAlgebraEffects(p, r)
 		rules.CanonicalForm(p, r, "C11-c")
@@ -26,6 +27,9 @@ func init() {
 		rules.EmptinessIgnoresBookkeeping(p, r, "C11-i")
 		rules.SubtractDeletesByContainment(p, r, "C11-h")
 		rules.IntervalsFromRuntimeBounds(p, r, "C11-range")
+		rules.PortSetMutatorsTotal(p, r, "C11-j")
+		rules.PortSetPredicateVocabulary(p, r, "C11-k")
+		rules.MapFieldsAllocated(p, r, "C11-alloc")
 		r.Assume("interval.CanonicalSet.Union/Intersect/Subtract/Copy return fresh sets; AddInterval/AddHole write their receiver (read from np-guard/models v0.5.2)")
 		r.Assume("convention of the package, used as the contract: methods with results are read-only, methods without results mutate the receiver")
 	})
